@@ -17,11 +17,23 @@ package message
 import (
 	"encoding/binary"
 	"fmt"
+	"sync/atomic"
 )
 
 var (
 	gPacketID uint64 = 0
 )
+
+// nextPacketID returns the next automatically assigned packet identifier. The
+// process-wide counter wraps modulo 65536; 0 is not a valid packet identifier
+// and is skipped.
+func nextPacketID() uint16 {
+	for {
+		if id := uint16(atomic.AddUint64(&gPacketID, 1) & 0xffff); id != 0 {
+			return id
+		}
+	}
+}
 
 // Fixed header
 // - 1 byte for control packet type (bits 7-4) and flags (bits 3-0)
